@@ -148,7 +148,11 @@ def capture_order_scenarios():
     closures optionally dropped before the scope ends, and the scope left in different ways."""
     out = []
     wrappers = ["block", "fn", "while-break", "for-continue", "fiber"]
-    for wrapper, order, drop, pads in itertools.product(wrappers, itertools.permutations("abc"), (None, 0, 1, 2), (0, 1)):
+    combos = [(w, o, d, p, None) for w, o, d, p in itertools.product(wrappers, itertools.permutations("abc"), (None, 0, 1, 2), (0, 1))]
+    # the second closure over an already captured variable is created LATE - after the other variables have been captured, so that the
+    # variable captured again is at any position of the VM's list (head, middle, tail), not only its head
+    combos += [(w, o, d, 0, late) for w, o, d, late in itertools.product(wrappers, itertools.permutations("abc"), (None, 1), (0, 1, 2))]
+    for wrapper, order, drop, pads, late in combos:
         b = Builder()
         for nme in ("ga", "gb", "gc", "sa", "sb", "sc"):
             b.var(nme, lit(None))
@@ -176,8 +180,13 @@ def capture_order_scenarios():
                 b.end()
             else:
                 b.expr(b.assign("g" + x, b.lam([], lambda: b.v(x))))
-            if k == 0:
+            if k == 0 and late is None:
                 b.expr(b.assign("s" + x, b.lam(["nv"], lambda: b.assign(x, b.v("nv")))))
+        if late is not None:
+            lx = order[late]
+            b.expr(b.assign("s" + lx, b.lam(["nv"], lambda: b.assign(lx, b.v("nv")))))
+            b.expr(call(b.v("s" + lx), lit("early")))
+            b.print(b.v(lx))
         # allocate while everything is open, then change the variables directly
         b.var("junk", vec(tup(lit(1), vec(lit(2))), lit("j")))
         b.expr(b.assign("b", lit("b1")))
@@ -198,11 +207,11 @@ def capture_order_scenarios():
             if drop is not None and order[drop] == x:
                 continue
             b.print(call(b.v("g" + x)))
-        first = order[0]
+        first = order[0] if late is None else order[late]
         b.expr(call(b.v("s" + first), lit("set")))
         if not (drop is not None and order[drop] == first):
             b.print(call(b.v("g" + first)))
-        out.append(("order:%s:%s:%s:%d" % (wrapper, "".join(order), drop, pads), b.toks))
+        out.append(("order:%s:%s:%s:%d%s" % (wrapper, "".join(order), drop, pads, "" if late is None else ":late%d" % late), b.toks))
     return out
 
 
